@@ -12,7 +12,7 @@ Local Open Scope Z_scope.
 Inductive exn :=
 | KeyError | IndexError | AssertionError | TypeError | ValueError
 | JellyConformanceError | JellyAssertionError | JellyNotImplementedError
-| StopIteration | NotImplementedError.
+| StopIteration | NotImplementedError | ZeroDivisionError | AttributeError.
 
 (* the outcome of a call: a value or a raised exception; the object's state is returned beside it
    in both cases (what a method changed before it raised stays changed) *)
@@ -26,7 +26,8 @@ Definition is_exn (e e' : exn) : bool :=
   | TypeError, TypeError | ValueError, ValueError
   | JellyConformanceError, JellyConformanceError | JellyAssertionError, JellyAssertionError
   | JellyNotImplementedError, JellyNotImplementedError
-  | StopIteration, StopIteration | NotImplementedError, NotImplementedError => true
+  | StopIteration, StopIteration | NotImplementedError, NotImplementedError
+  | ZeroDivisionError, ZeroDivisionError | AttributeError, AttributeError => true
   | _, _ => false
   end.
 
@@ -194,7 +195,9 @@ Definition set_add {K} (eqb : K -> K -> bool) (k : K) (l : list K) : list K := i
    which values, with the oneof rule (setting a member clears its siblings). *)
 Inductive pbval (K : Type) :=
 | PInt (z : Z) | PBool (b : bool) | PStr (s : K)
-| PMsg (name : string) (fields : list (string * pbval K)).
+| PMsg (name : string) (fields : list (string * pbval K))
+| PRep (items : list (pbval K)).            (* a repeated field *)
+Arguments PRep {K} items.
 Arguments PInt {K} z.
 Arguments PBool {K} b.
 Arguments PStr {K} s.
